@@ -291,6 +291,11 @@ L80:
 	}
 	global_1.fx = (*f)(n, &x[1], f_data);
 	++global_1.nf;
+	++ *(stop->nevals_p);
+	if (global_1.fx < q_1.fbest) {
+	     q_1.fbest = global_1.fx;
+	     memcpy(q_1.xbest, &x[1], n*sizeof(double));
+	}
 
 /* .....MINIMIZE ALONG THE "NON-CONJUGATE" DIRECTIONS V(*,K),...,V(*,N) */
 
